@@ -87,7 +87,7 @@ def call_bound_ns(fc, kind, lens):
     tot = 0
     for n in lens:
         tot += esb.send_time_bound_ns(fc["arc"], fc["ard"], 0 if kind == "R" else fc["fr"], AW, n, CRC, RATE,
-                                      spi_cost_ns=fc["cost"] * US, acked=acked)
+                                      ack_bytes=32 if fc["mode"] == "ackpl" else 0, spi_cost_ns=fc["cost"] * US, acked=acked)
     if not lens:  # resend() with nothing to re-send: a few SPI transactions
         tot = esb.send_time_bound_ns(0, 0, 0, AW, 0, CRC, RATE, spi_cost_ns=fc["cost"] * US, acked=False)
     return tot
